@@ -335,6 +335,17 @@ func run(id string, args []string) int {
 		}
 	}
 
+	// every listed open finding of this property is named on every run, whether
+	// or not this run's workload happened to reproduce it
+	if known != nil {
+		for _, f := range known.Open {
+			if f.Property == id && !printedKnown[f.Signature] {
+				fmt.Printf("KNOWN-FINDING: property=%s %s [%s, signature %s, not re-observed in this run]\n", id, f.What, f.ID, f.Signature)
+				printedKnown[f.Signature] = true
+			}
+		}
+	}
+
 	cov := map[string]any{
 		"evaluations":         evals,
 		"distinct_nontrivial": len(sigs),
